@@ -65,7 +65,111 @@ def symbols_of(tree: ast.Module) -> Dict[str, List[str]]:
     for stmt in tree.body:
         for t in _targets(stmt):
             names.append(t)
-    return {"functions": sorted(set(funcs)), "names": sorted(set(names)), "attrs": class_attrs(tree)}
+    return {"functions": sorted(set(funcs)), "names": sorted(set(names)), "attrs": class_attrs(tree), "params": func_params(tree), "shapes": func_shapes(tree), "locals": func_locals(tree), "bodies": func_bodies(tree)}
+
+
+def _own_nodes(f: ast.AST):
+    """Nodes of f's own scope (nested defs / lambdas excluded; comprehensions included)."""
+    stack = list(ast.iter_child_nodes(f))
+    while stack:
+        n = stack.pop()
+        yield n
+        if isinstance(n, FuncDef + (ast.Lambda, ast.ClassDef)):
+            continue
+        stack.extend(ast.iter_child_nodes(n))
+
+
+def _local_order(f: ast.AST) -> List[str]:
+    binds = []
+    for n in _own_nodes(f):
+        if isinstance(n, ast.Name) and isinstance(n.ctx, ast.Store):
+            binds.append((getattr(n, "lineno", 0), getattr(n, "col_offset", 0), n.id))
+        elif isinstance(n, ast.ExceptHandler) and n.name:
+            binds.append((getattr(n, "lineno", 0), 0, n.name))
+    out: List[str] = []
+    params = {a.arg for a in f.args.posonlyargs + f.args.args + f.args.kwonlyargs}  # type: ignore[attr-defined]
+    for _, _, name in sorted(binds):
+        if name not in out and name not in params:
+            out.append(name)
+    return out
+
+
+def func_locals(tree: ast.Module) -> Dict[str, List[str]]:
+    return {q: _local_order(f) for q, f, _ in _walk_defs(tree)}
+
+
+def undo_local_renames(tree: ast.Module, known_locals: Dict[str, List[str]]) -> List[str]:
+    """Locals of a pinned function that were merely renamed get their pinned names back.  The
+    two first-binding orders are aligned; a name that was replaced one-for-one by a name unknown
+    to the pinned function is renamed (capture-free: the pinned name must be unused)."""
+    import difflib
+
+    done: List[str] = []
+    for q, f, _ in _walk_defs(tree):
+        want = known_locals.get(q)
+        if want is None:
+            continue
+        have = _local_order(f)
+        if have == want:
+            continue
+        mapping: Dict[str, str] = {}
+        sm = difflib.SequenceMatcher(a=want, b=have, autojunk=False)
+        for tag, i1, i2, j1, j2 in sm.get_opcodes():
+            if tag == "replace" and (i2 - i1) == (j2 - j1):
+                for w, h in zip(want[i1:i2], have[j1:j2]):
+                    if w not in have and h not in want:
+                        mapping[h] = w
+        if not mapping:
+            continue
+        used = {n.id for n in ast.walk(f) if isinstance(n, ast.Name)} | {a.arg for n in ast.walk(f) if isinstance(n, FuncDef + (ast.Lambda,)) for a in n.args.args}
+        mapping = {h: w for h, w in mapping.items() if w not in used}
+        # nested functions that rebind the name keep their own variable: skip such names
+        for n in ast.walk(f):
+            if isinstance(n, FuncDef + (ast.Lambda,)) and n is not f:
+                inner = {x.id for x in ast.walk(n) if isinstance(x, ast.Name) and isinstance(x.ctx, ast.Store)} | {a.arg for a in n.args.args}
+                for h in list(mapping):
+                    if h in inner and not any(isinstance(x, ast.Nonlocal) and h in x.names for x in ast.walk(n)):
+                        mapping.pop(h)
+        if not mapping:
+            continue
+        for n in ast.walk(f):
+            if isinstance(n, ast.Name) and n.id in mapping:
+                n.id = mapping[n.id]
+            elif isinstance(n, ast.ExceptHandler) and n.name in mapping:
+                n.name = mapping[n.name]
+            elif isinstance(n, (ast.Nonlocal, ast.Global)):
+                n.names = [mapping.get(x, x) for x in n.names]
+        done.append(f"{q}({', '.join(f'{h}->{w}' for h, w in mapping.items())})")
+    return done
+
+
+def _walk_defs(tree: ast.AST, prefix: str = ""):
+    for child in ast.iter_child_nodes(tree):
+        if isinstance(child, FuncDef):
+            yield prefix + child.name, child, tree
+            yield from _walk_defs(child, prefix + child.name + ".")
+        elif isinstance(child, ast.ClassDef):
+            yield from _walk_defs(child, prefix + child.name + ".")
+        else:
+            yield from _walk_defs(child, prefix)
+
+
+def func_params(tree: ast.Module) -> Dict[str, List[str]]:
+    return {q: [a.arg for a in f.args.posonlyargs + f.args.args + f.args.kwonlyargs] for q, f, _ in _walk_defs(tree)}
+
+
+def _stmt_texts(f: ast.AST, name: str) -> List[str]:
+    out = []
+    for st in ast.walk(f):
+        if isinstance(st, ast.stmt) and st is not f and not isinstance(st, (ast.If, ast.For, ast.While, ast.Try, ast.With, ast.AsyncWith, ast.AsyncFor)):
+            out.append(ast.unparse(st).replace(name, "@"))
+    return out
+
+
+def func_shapes(tree: ast.Module) -> Dict[str, List[str]]:
+    """Per function: the texts of its simple statements (own name masked) - used only to recognise
+    a renamed function by the similarity of its body."""
+    return {q: _stmt_texts(f, f.name) for q, f, _ in _walk_defs(tree)}
 
 
 def class_attrs(tree: ast.Module) -> Dict[str, Dict[str, str]]:
@@ -86,6 +190,208 @@ def class_attrs(tree: ast.Module) -> Dict[str, Dict[str, str]]:
                 attrs.setdefault(tgt.attr, ast.unparse(val))
         out[cls.name] = attrs
     return out
+
+
+def func_bodies(tree: ast.Module) -> Dict[str, Dict[str, object]]:
+    """Top-level statement texts of parameterless helpers (methods taking only self, functions
+    taking nothing) that return no value - enough to recognise such a helper after it was inlined."""
+    out: Dict[str, Dict[str, object]] = {}
+    for q, f, parent in _walk_defs(tree):
+        params = [a.arg for a in f.args.posonlyargs + f.args.args + f.args.kwonlyargs]
+        is_method = isinstance(parent, ast.ClassDef)
+        if params != (["self"] if is_method else []) or f.args.vararg or f.args.kwarg or f.decorator_list:
+            continue
+        if any(isinstance(n, ast.Return) and n.value is not None for n in ast.walk(f)) or _has_yield(f):
+            continue
+        body = [b for b in f.body if not (isinstance(b, ast.Expr) and isinstance(b.value, ast.Constant) and isinstance(b.value.value, str))]
+        if not body or any(isinstance(n, ast.Return) for b in body for n in ast.walk(b)):
+            continue
+        out[q] = {"async": isinstance(f, ast.AsyncFunctionDef), "stmts": [ast.unparse(b) for b in body]}
+    return out
+
+
+def reextract_inlined(tree: ast.Module, known: Dict[str, object]) -> List[str]:
+    """A pinned parameterless helper that vanished while its statements appear verbatim, in order,
+    inside another function of the same class / module was inlined there: put it back (the block
+    becomes a call again), so the rules anchored in the helper still find it."""
+    done: List[str] = []
+    bodies = known.get("bodies") or {}
+    present = {q for q, _, _ in _walk_defs(tree)}
+    for q, info in bodies.items():
+        if q in present or q.count(".") > 1:
+            continue
+        scope_name = q.rsplit(".", 1)[0] if "." in q else ""
+        name = q.rsplit(".", 1)[-1]
+        scope: Optional[ast.AST] = tree if not scope_name else next((n for n in ast.walk(tree) if isinstance(n, ast.ClassDef) and n.name == scope_name), None)
+        if scope is None:
+            continue
+        if any(isinstance(n, ast.Attribute) and n.attr == name for n in ast.walk(tree)) or any(isinstance(n, ast.Name) and n.id == name for n in ast.walk(tree)):
+            continue
+        want = list(info["stmts"])  # type: ignore[index]
+        is_async = bool(info["async"])  # type: ignore[index]
+        found: List[Tuple[List[ast.stmt], int]] = []
+
+        def scan(stmts: List[ast.stmt], in_async: bool) -> None:
+            texts = [ast.unparse(x) for x in stmts]
+            for i in range(0, len(stmts) - len(want) + 1):
+                if texts[i : i + len(want)] == want and (in_async or not is_async):
+                    found.append((stmts, i))
+                    break
+            for st in stmts:
+                if isinstance(st, FuncDef + (ast.ClassDef,)):
+                    continue
+                for fld in ("body", "orelse", "finalbody"):
+                    v = getattr(st, fld, None)
+                    if isinstance(v, list) and v and isinstance(v[0], ast.stmt):
+                        scan(v, in_async)
+                for hd in getattr(st, "handlers", []) or []:
+                    scan(hd.body, in_async)
+
+        for m in getattr(scope, "body", []):
+            if isinstance(m, FuncDef):
+                scan(m.body, isinstance(m, ast.AsyncFunctionDef))
+        if not found:
+            continue
+        block_stmts: List[ast.stmt] = []
+        for stmts, i in found:
+            block_stmts = stmts[i : i + len(want)]
+            callee: ast.expr = ast.Attribute(value=ast.Name(id="self", ctx=ast.Load()), attr=name, ctx=ast.Load()) if scope_name else ast.Name(id=name, ctx=ast.Load())
+            call: ast.expr = ast.Call(func=callee, args=[], keywords=[])
+            if is_async:
+                call = ast.Await(value=call)
+            st = ast.Expr(value=call)
+            ast.copy_location(st, block_stmts[0])
+            ast.fix_missing_locations(st)
+            stmts[i : i + len(want)] = [st]
+        args = ast.arguments(posonlyargs=[], args=[ast.arg(arg="self")] if scope_name else [], kwonlyargs=[], kw_defaults=[], defaults=[])
+        cls_ = ast.AsyncFunctionDef if is_async else ast.FunctionDef
+        fn = cls_(name=name, args=args, body=[copy.deepcopy(b) for b in block_stmts], decorator_list=[], returns=None, type_comment=None, type_params=[])
+        ast.copy_location(fn, block_stmts[0])
+        ast.fix_missing_locations(fn)
+        scope.body.append(fn)  # type: ignore[attr-defined]
+        done.append(q)
+    return done
+
+
+def unhoist_closures(tree: ast.Module, known: Dict[str, object]) -> List[str]:
+    """A pinned closure `Cls.m.c` that vanished while the class gained a new method `c` used only
+    inside `m` (as `self.c`) was hoisted out of `m`: nest it again."""
+    done: List[str] = []
+    pinned = set(known.get("functions", []))  # type: ignore[arg-type]
+    present = {q for q, _, _ in _walk_defs(tree)}
+    for q in sorted(pinned - present):
+        parts = q.split(".")
+        if len(parts) != 3:
+            continue
+        cname, mname, fname = parts
+        cls = next((n for n in ast.walk(tree) if isinstance(n, ast.ClassDef) and n.name == cname), None)
+        if cls is None or f"{cname}.{fname}" in pinned:
+            continue
+        meth = next((m for m in cls.body if isinstance(m, FuncDef) and m.name == mname), None)
+        new = next((m for m in cls.body if isinstance(m, FuncDef) and m.name == fname), None)
+        if meth is None or new is None or not new.args.args or new.args.args[0].arg != "self" or new.decorator_list:
+            continue
+        uses = [n for n in ast.walk(tree) if isinstance(n, ast.Attribute) and n.attr == fname]
+        inside = [n for n in ast.walk(meth) if isinstance(n, ast.Attribute) and n.attr == fname]
+        if len(uses) != len(inside) or not all(isinstance(n.value, ast.Name) and n.value.id == "self" for n in uses):
+            continue
+        cls.body.remove(new)
+        new.args.args = new.args.args[1:]
+        ins = 1 if meth.body and isinstance(meth.body[0], ast.Expr) and isinstance(meth.body[0].value, ast.Constant) and isinstance(meth.body[0].value.value, str) else 0
+        meth.body.insert(ins, new)
+
+        class Sub(ast.NodeTransformer):
+            def visit_Attribute(self, node: ast.Attribute):  # noqa: N802
+                self.generic_visit(node)
+                if node.attr == fname and isinstance(node.value, ast.Name) and node.value.id == "self":
+                    return ast.copy_location(ast.Name(id=fname, ctx=node.ctx), node)
+                return node
+
+        for i, st in enumerate(meth.body):
+            if st is not new:
+                meth.body[i] = Sub().visit(st)
+        done.append(q)
+    return done
+
+
+def undo_func_renames(tree: ast.Module, known: Dict[str, List[str]]) -> List[str]:
+    """A pinned function/method that vanished while a new one with (nearly) the same body appeared
+    in the same scope is the same function under a new name: rename it (and its uses) back."""
+    done: List[str] = []
+    shapes = known.get("shapes") or {}
+    defs = list(_walk_defs(tree))
+    present = {q for q, _, _ in defs}
+    missing = [q for q in known.get("functions", []) if q not in present]
+    new = [(q, f, parent) for q, f, parent in defs if q not in set(known.get("functions", []))]
+    for mq in missing:
+        scope = mq.rsplit(".", 1)[0] if "." in mq else ""
+        mname = mq.rsplit(".", 1)[-1]
+        want = shapes.get(mq)
+        if not want:
+            continue
+        best = None
+        for q, f, parent in new:
+            qscope = q.rsplit(".", 1)[0] if "." in q else ""
+            if qscope != scope:
+                continue
+            have = _stmt_texts(f, f.name)
+            common = len(set(want) & set(have))
+            score = common / max(len(set(want) | set(have)), 1)
+            if score >= 0.6 and (best is None or score > best[0]):
+                best = (score, q, f)
+        if best is None:
+            continue
+        # the old name must be free
+        if any(isinstance(n, ast.Attribute) and n.attr == mname for n in ast.walk(tree)) or any(isinstance(n, ast.Name) and n.id == mname for n in ast.walk(tree)):
+            continue
+        _, q, f = best
+        oldname = f.name
+        f.name = mname
+        for n in ast.walk(tree):
+            if isinstance(n, ast.Attribute) and n.attr == oldname:
+                n.attr = mname
+            elif isinstance(n, ast.Name) and n.id == oldname and "." not in mq:
+                n.id = mname
+        new = [x for x in new if x[1] is not f]
+        done.append(f"{q}->{mq}")
+    return done
+
+
+def undo_param_renames(tree: ast.Module, known_params: Dict[str, List[str]]) -> List[str]:
+    """Parameters of a pinned function that were merely renamed get their pinned names back
+    (inside the function, and as keywords at its `self.f(...)` / `f(...)` call sites)."""
+    done: List[str] = []
+    for q, f, _ in _walk_defs(tree):
+        want = known_params.get(q)
+        if want is None:
+            continue
+        args = f.args.posonlyargs + f.args.args + f.args.kwonlyargs
+        have = [a.arg for a in args]
+        if len(have) != len(want) or have == want:
+            continue
+        mapping = {h: w for h, w in zip(have, want) if h != w}
+        names = {n.id for n in ast.walk(f) if isinstance(n, ast.Name)} | {a.arg for a in args}
+        if any(w in names for w in mapping.values()):
+            continue  # the pinned name is in use for something else
+        if any(isinstance(n, FuncDef + (ast.Lambda,)) and n is not f for n in ast.walk(f)):
+            inner = {a.arg for n in ast.walk(f) if isinstance(n, FuncDef + (ast.Lambda,)) and n is not f for a in n.args.args}
+            if inner & set(mapping):
+                continue
+        for a in args:
+            a.arg = mapping.get(a.arg, a.arg)
+        for n in ast.walk(f):
+            if isinstance(n, ast.Name) and n.id in mapping:
+                n.id = mapping[n.id]
+            elif isinstance(n, (ast.Global, ast.Nonlocal)):
+                n.names = [mapping.get(x, x) for x in n.names]
+        fname = q.rsplit(".", 1)[-1]
+        for n in ast.walk(tree):
+            if isinstance(n, ast.Call) and (_dotted(n.func) or "").split(".")[-1] == fname:
+                for k in n.keywords:
+                    if k.arg in mapping:
+                        k.arg = mapping[k.arg]
+        done.append(f"{q}({', '.join(f'{h}->{w}' for h, w in mapping.items())})")
+    return done
 
 
 def undo_attr_renames(tree: ast.Module, known_attrs: Dict[str, Dict[str, str]]) -> List[str]:
@@ -142,12 +448,35 @@ class _Small(ast.NodeTransformer):
 
     def visit_Assign(self, node: ast.Assign):  # noqa: N802
         self.generic_visit(node)
+        if len(node.targets) == 1:
+            sp = self._split_tuple(node)
+            if sp is not None:
+                return sp
         if len(node.targets) == 1 and isinstance(node.value, ast.IfExp):
             return self._ifexp(node, lambda v: ast.Assign(targets=[copy.deepcopy(node.targets[0])], value=v))
         if len(node.targets) == 1 and isinstance(node.value, ast.BinOp) and isinstance(node.targets[0], (ast.Name, ast.Attribute)) and ast.dump(_load(node.targets[0])) == ast.dump(node.value.left):
             self.count += 1
             return ast.copy_location(ast.AugAssign(target=node.targets[0], op=node.value.op, value=node.value.right), node)
         return node
+
+    def _split_tuple(self, node: ast.Assign):
+        t, v = node.targets[0], node.value
+        if not (isinstance(t, ast.Tuple) and isinstance(v, ast.Tuple) and len(t.elts) == len(v.elts) and all(isinstance(e, ast.Name) for e in t.elts)):
+            return None
+        names = [e.id for e in t.elts]
+        for i, val in enumerate(v.elts):
+            used = {x.id for x in ast.walk(val) if isinstance(x, ast.Name)}
+            if used & set(names[:i]):
+                return None  # a later value reads an earlier target
+            if any(isinstance(x, (ast.Await, ast.NamedExpr, ast.Starred)) for x in ast.walk(val)):
+                return None
+        out = []
+        for e, val in zip(t.elts, v.elts):
+            a = ast.Assign(targets=[e], value=val)
+            ast.copy_location(a, node)
+            out.append(a)
+        self.count += 1
+        return out
 
     def visit_AnnAssign(self, node: ast.AnnAssign):  # noqa: N802
         self.generic_visit(node)
@@ -195,6 +524,43 @@ class _Small(ast.NodeTransformer):
             return [asg, node]
         return node
 
+    def visit_While(self, node: ast.While):  # noqa: N802
+        self.generic_visit(node)
+        # `while True: if c: break; BODY` -> `while not c: BODY`
+        if isinstance(node.test, ast.Constant) and node.test.value is True and not node.orelse and len(node.body) >= 2:
+            first = node.body[0]
+            if isinstance(first, ast.If) and not first.orelse and len(first.body) == 1 and isinstance(first.body[0], ast.Break) and not any(isinstance(x, (ast.Await, ast.NamedExpr, ast.Call)) for x in ast.walk(first.test)):
+                node.test = _negate(first.test)
+                node.body = node.body[1:]
+                ast.fix_missing_locations(node)
+                self.count += 1
+        return node
+
+    def visit_With(self, node: ast.With):  # noqa: N802
+        self.generic_visit(node)
+        if len(node.items) == 1 and node.items[0].optional_vars is None:
+            ce = node.items[0].context_expr
+            if isinstance(ce, ast.Call) and _dotted(ce.func) in ("suppress", "contextlib.suppress") and ce.args and not ce.keywords:
+                typ = ce.args[0] if len(ce.args) == 1 else ast.Tuple(elts=list(ce.args), ctx=ast.Load())
+                h = ast.ExceptHandler(type=typ, name=None, body=[ast.Pass()])
+                new = ast.Try(body=node.body, handlers=[h], orelse=[], finalbody=[])
+                ast.copy_location(new, node)
+                ast.copy_location(h, node)
+                ast.fix_missing_locations(new)
+                self.count += 1
+                return new
+        return node
+
+    def visit_Try(self, node: ast.Try):  # noqa: N802
+        self.generic_visit(node)
+        # try/except/else whose handlers all leave: the else body may as well follow the try
+        if node.orelse and not node.finalbody and node.handlers and all(_leaves_block(h.body) for h in node.handlers):
+            tail = node.orelse
+            node.orelse = []
+            self.count += 1
+            return [node] + tail
+        return node
+
     def visit_BoolOp(self, node: ast.BoolOp):  # noqa: N802
         self.generic_visit(node)
         if isinstance(node.op, ast.Or):
@@ -221,6 +587,28 @@ class _Small(ast.NodeTransformer):
                 node.args.append(node.keywords.pop(0).value)
                 self.count += 1
         return node
+
+
+_NEGOP = {ast.Is: ast.IsNot, ast.IsNot: ast.Is, ast.Eq: ast.NotEq, ast.NotEq: ast.Eq, ast.In: ast.NotIn, ast.NotIn: ast.In}
+
+
+def _negate(e: ast.expr) -> ast.expr:
+    if isinstance(e, ast.UnaryOp) and isinstance(e.op, ast.Not):
+        return e.operand
+    if isinstance(e, ast.Compare) and len(e.ops) == 1 and type(e.ops[0]) in _NEGOP:
+        return ast.copy_location(ast.Compare(left=e.left, ops=[_NEGOP[type(e.ops[0])]()], comparators=e.comparators), e)
+    return ast.copy_location(ast.UnaryOp(op=ast.Not(), operand=e), e)
+
+
+def _leaves_block(body: List[ast.stmt]) -> bool:
+    if not body:
+        return False
+    last = body[-1]
+    if isinstance(last, (ast.Return, ast.Raise, ast.Break, ast.Continue)):
+        return True
+    if isinstance(last, ast.If):
+        return bool(last.orelse) and _leaves_block(last.body) and _leaves_block(last.orelse)
+    return False
 
 
 def _hoist_walrus(test: ast.expr):
@@ -271,6 +659,39 @@ def _is_isinstance(v: ast.expr) -> bool:
 
 def _class_list(e: ast.expr) -> List[ast.expr]:
     return list(e.elts) if isinstance(e, ast.Tuple) else [e]
+
+
+def flag_loops(tree: ast.Module) -> int:
+    """`done = False; while not done: BODY; done = <cond>` (the flag read nowhere else, set only as the
+    last statement of the body) is `while True: BODY; if <cond>: break`."""
+    count = 0
+    for f in [n for n in ast.walk(tree) if isinstance(n, FuncDef)]:
+        for holder in ast.walk(f):
+            for fld in ("body", "orelse", "finalbody"):
+                stmts = getattr(holder, fld, None)
+                if not (isinstance(stmts, list) and stmts and isinstance(stmts[0], ast.stmt)):
+                    continue
+                for i in range(len(stmts) - 1):
+                    a, w = stmts[i], stmts[i + 1]
+                    if not (isinstance(a, ast.Assign) and len(a.targets) == 1 and isinstance(a.targets[0], ast.Name) and isinstance(a.value, ast.Constant) and a.value.value is False):
+                        continue
+                    flag = a.targets[0].id
+                    if not (isinstance(w, ast.While) and not w.orelse and isinstance(w.test, ast.UnaryOp) and isinstance(w.test.op, ast.Not) and isinstance(w.test.operand, ast.Name) and w.test.operand.id == flag and w.body):
+                        continue
+                    last = w.body[-1]
+                    if not (isinstance(last, ast.Assign) and len(last.targets) == 1 and isinstance(last.targets[0], ast.Name) and last.targets[0].id == flag):
+                        continue
+                    uses = [n for n in ast.walk(f) if isinstance(n, ast.Name) and n.id == flag]
+                    if len(uses) != 3 or any(isinstance(x, (ast.Await, ast.NamedExpr)) for x in ast.walk(last.value)):
+                        continue
+                    brk = ast.If(test=last.value, body=[ast.Break()], orelse=[])
+                    ast.copy_location(brk, last)
+                    ast.fix_missing_locations(brk)
+                    w.body[-1] = brk
+                    w.test = ast.copy_location(ast.Constant(value=True), w.test)
+                    stmts[i] = ast.copy_location(ast.Pass(), a)
+                    count += 1
+    return count
 
 
 # --------------------------------------------------------------------------- constants
@@ -472,7 +893,7 @@ class _Inliner:
                 if s is h:
                     i += 1
                     continue
-                rep = self._try_stmt(s, h, kind, owner)
+                rep = self._try_stmt(s, h, kind, owner, stmts[i + 1] if i + 1 < len(stmts) else None)
                 if rep is not None:
                     _renumber(rep, getattr(s, "lineno", 0))
                     stmts[i : i + 1] = rep
@@ -497,7 +918,7 @@ class _Inliner:
                 left += 1
         return left
 
-    def _try_stmt(self, s: ast.stmt, h: ast.AST, kind: str, owner: ast.AST) -> Optional[List[ast.stmt]]:
+    def _try_stmt(self, s: ast.stmt, h: ast.AST, kind: str, owner: ast.AST, nxt: Optional[ast.stmt] = None) -> Optional[List[ast.stmt]]:
         rets = _returns(h)
         tails = _tail_returns(h.body)  # type: ignore[attr-defined]
         if isinstance(s, ast.Expr):
@@ -528,15 +949,33 @@ class _Inliner:
             if isinstance(s, ast.Assign) and len(s.targets) != 1:
                 return None
             target = s.targets[0] if isinstance(s, ast.Assign) else s.target
-            if any(id(r) not in tails for r in rets):
+            # "sentinel" extraction: `t = helper(); if t is None: return` - the helper's early
+            # `return None`s are the caller's early returns
+            sentinel = (
+                isinstance(target, ast.Name)
+                and isinstance(nxt, ast.If)
+                and not nxt.orelse
+                and ast.unparse(nxt.test) == f"{target.id} is None"
+                and len(nxt.body) == 1
+                and isinstance(nxt.body[0], ast.Return)
+                and (nxt.body[0].value is None or (isinstance(nxt.body[0].value, ast.Constant) and nxt.body[0].value.value is None))
+            )
+            non_tail = [r for r in rets if id(r) not in tails]
+            if non_tail and not (sentinel and all(r.value is None or (isinstance(r.value, ast.Constant) and r.value.value is None) for r in non_tail)):
                 return None
-            body = self._body(h, call, kind, owner)
+            non_tail_pos = {(getattr(r, "lineno", 0), getattr(r, "col_offset", 0)) for r in non_tail}
+            keep = {target.id} if isinstance(target, ast.Name) and not _bound_before(owner, target.id, s) else set()
+            body = self._body(h, call, kind, owner, keep)
             if body is None:
                 return None
             falls_off = not h.body or not _always_leaves(h.body)  # type: ignore[attr-defined]
 
-            def mk(r: ast.Return) -> ast.stmt:
+            def mk(r: ast.Return) -> Optional[ast.stmt]:
+                if (getattr(r, "lineno", 0), getattr(r, "col_offset", 0)) in non_tail_pos:
+                    return ast.copy_location(ast.Return(value=None), r)
                 v = r.value if r.value is not None else ast.Constant(value=None)
+                if isinstance(v, ast.Name) and isinstance(target, ast.Name) and v.id == target.id:
+                    return None  # `t = t`
                 return ast.copy_location(ast.Assign(targets=[copy.deepcopy(target)], value=v), r)
 
             out = _replace_returns(body, mk)
@@ -545,7 +984,7 @@ class _Inliner:
             return out
         return None
 
-    def _body(self, h: ast.AST, call: ast.Call, kind: str, owner: ast.AST) -> Optional[List[ast.stmt]]:
+    def _body(self, h: ast.AST, call: ast.Call, kind: str, owner: ast.AST, keep: Set[str] = frozenset()) -> Optional[List[ast.stmt]]:  # type: ignore[assignment]
         params = [a.arg for a in h.args.args]  # type: ignore[attr-defined]
         defaults = h.args.defaults  # type: ignore[attr-defined]
         kwonly = [a.arg for a in h.args.kwonlyargs]  # type: ignore[attr-defined]
@@ -592,7 +1031,7 @@ class _Inliner:
         if isinstance(owner, FuncDef):
             owner_names |= {a.arg for a in owner.args.args}
         closure = isinstance(owner, FuncDef) and any(h is x for x in owner.body)
-        rename = {} if closure else {n: f"{n}__{h.name.strip('_')}" for n in stored if n in owner_names and n not in bind}  # type: ignore[attr-defined]
+        rename = {} if closure else {n: f"{n}__{h.name.strip('_')}" for n in stored if n in owner_names and n not in bind and n not in keep}  # type: ignore[attr-defined]
 
         class Sub(ast.NodeTransformer):
             def visit_Name(self, node: ast.Name):  # noqa: N802
@@ -624,6 +1063,17 @@ def _renumber(stmts: List[ast.stmt], line: float) -> None:
 
     for st in stmts:
         pre(st)
+
+
+def _bound_before(owner: ast.AST, name: str, stmt: ast.stmt) -> bool:
+    """Is `name` bound (or a parameter) in `owner` before `stmt`?"""
+    if isinstance(owner, FuncDef) and name in {a.arg for a in owner.args.posonlyargs + owner.args.args + owner.args.kwonlyargs}:
+        return True
+    line = getattr(stmt, "lineno", 0)
+    for n in ast.walk(owner):
+        if isinstance(n, ast.Name) and n.id == name and isinstance(n.ctx, ast.Store) and getattr(n, "lineno", 0) < line:
+            return True
+    return False
 
 
 def _always_leaves(body: List[ast.stmt]) -> bool:
@@ -669,6 +1119,26 @@ def _replace_returns(body: List[ast.stmt], mk) -> List[ast.stmt]:
 def canonicalise(name: str, tree: ast.Module, known: Dict[str, Dict[str, List[str]]]) -> Dict[str, object]:
     stats: Dict[str, object] = {}
     k = known.get(name)
+    if k is not None and k.get("functions"):
+        un = unhoist_closures(tree, k)
+        if un:
+            stats["closures_nested_again"] = un
+    if k is not None and k.get("shapes"):
+        ren = undo_func_renames(tree, k)
+        if ren:
+            stats["function_renames_undone"] = ren
+    if k is not None and k.get("bodies"):
+        rx = reextract_inlined(tree, k)
+        if rx:
+            stats["inlined_helpers_extracted_again"] = rx
+    if k is not None and k.get("params"):
+        ren = undo_param_renames(tree, k["params"])
+        if ren:
+            stats["parameter_renames_undone"] = ren
+    if k is not None and k.get("locals"):
+        ren = undo_local_renames(tree, k["locals"])
+        if ren:
+            stats["local_renames_undone"] = ren
     if k is not None and k.get("attrs"):
         ren = undo_attr_renames(tree, k["attrs"])
         if ren:
@@ -684,6 +1154,9 @@ def canonicalise(name: str, tree: ast.Module, known: Dict[str, Dict[str, List[st
             stats["constants_propagated"] = n
     small = _Small()
     small.visit(tree)
+    nfl = flag_loops(tree)
+    if nfl:
+        stats["flag_loops"] = nfl
     if small.count:
         stats["small_rewrites"] = small.count
     ast.fix_missing_locations(tree)
